@@ -65,8 +65,8 @@ type (
 		varsMut                 sync.RWMutex
 	}
 	Query struct {
-		data Map
-		from []any
+		data                Map
+		from                []any
 		filtered            []any
 		distinct            bool
 		selectDefinition    SelectDefinition
@@ -580,6 +580,17 @@ func BuildFromAliasedTable(query *Query, as string, expr sqlparser.SimpleTableEx
 	}
 }
 
+// Scope returns a shallow copy of the current row that carries the backward
+// navigation marker, so that the caller's data is never modified
+func Scope(current Map, parent Map) Map {
+	scope := make(Map, len(current)+1)
+	for key, value := range current {
+		scope[key] = value
+	}
+	scope["<-"] = parent
+	return scope
+}
+
 func ProcessAlias(data []any, as string) []any {
 	if len(as) == 0 {
 		return data
@@ -762,8 +773,7 @@ func OrExpr(query *Query, current Map, expr *sqlparser.OrExpr, opts ...ExprOptio
 }
 
 func ComparisonExpr(query *Query, current Map, expr *sqlparser.ComparisonExpr, opts ...ExprOption) (bool, error) {
-	current["<-"] = query.data
-	defer delete(current, "<-")
+	current = Scope(current, query.data)
 	left, err := Expr(query, current, expr.Left, opts...)
 	if err != nil {
 		return false, err
@@ -1294,11 +1304,7 @@ func SelectExpr(query *Query, current Map, expr *sqlparser.SelectExprs, opts ...
 
 func SubqueryExpr(query *Query, current Map, expr *sqlparser.Subquery, opts ...ExprOption) (any, error) {
 	// Backward Navigation
-	current["<-"] = query.data
-	query.postProcessors = append(query.postProcessors, func() error {
-		delete(current, "<-")
-		return nil
-	})
+	current = Scope(current, query.data)
 	subQuery, err := Prepare(current, expr.Select, query.options)
 	if err != nil {
 		return nil, err
@@ -1341,11 +1347,7 @@ func CaseExpr(query *Query, current Map, expr *sqlparser.CaseExpr, opts ...ExprO
 // it finds the first value
 func ExistExpr(query *Query, current Map, expr *sqlparser.ExistsExpr, opts ...ExprOption) (bool, error) {
 	// Backward Navigation
-	current["<-"] = query.data
-	query.postProcessors = append(query.postProcessors, func() error {
-		delete(current, "<-")
-		return nil
-	})
+	current = Scope(current, query.data)
 	q, err := Prepare(current, expr.Subquery.Select, query.options)
 	if err != nil {
 		return false, err
